@@ -1,7 +1,7 @@
 (* C02 proofs, part 4: every in-scope command preserves the chain invariant. *)
 From Coq Require Import List Arith Bool Lia.
 From StgV Require Import Model.StackSpec Model.LocatorSpec Proofs.CharsProofs Proofs.NameProofs Proofs.LocatorProofs
-  Proofs.ChainBasics Proofs.ChainTxn Proofs.ChainExec.
+  Proofs.ChainBasics Proofs.ChainTxn Proofs.ChainExec Proofs.PickBasics Proofs.UncommitNames.
 Import ListNotations.
 Local Open Scope nat_scope.
 
@@ -318,7 +318,7 @@ Proof.
     [|triv Hc Hok|triv Hc Hok].
   cbn [rres_bind].
   assert (G : ~ In newn (s_applied s) ->
-              CInv (fst (transact op (opts CAllow true false false true false) (rename_patch oldn newn) MOp))).
+              CInv (fst (transact op (opts CAllow (w_apc (op_world op)) false false true false) (rename_patch oldn newn) MOp))).
   { intros Hn. eapply transact_cinv_rinv; [exact Hok|]. intros t0 H0 Hh0 E0.
     apply rename_inv; [exact H0|exact Hh0| |]; subst t0; cbn [begin_txn t_applied t_updated up_get].
     - exact Hn.
@@ -419,6 +419,7 @@ Proof.
   - match goal with |- CInv (fst (match ?t with Some _ => _ | None => _ end)) => destruct t end; exact Hc.
   - destruct (first_parent _ _); [|exact Hc].
     unfold put. cbn [fst]. unfold CInv. cbn. apply (SInv_ns (w_objs w)); [exact Hc|apply ns_extends_put_plain].
+  - exact Hc.
 Qed.
 
 (* ---- commit ---- *)
@@ -496,7 +497,7 @@ Proof.
   match goal with |- CInv (fst (if ?c then _ else _)) => destruct c end; [triv Hc Hok|].
   destruct (negb (head_top_ok op)); [triv Hc Hok|].
   apply transact_cinv; [exact Hok|].
-  destruct (begin_txn_inv op (opts CAllowIfSameTop true false true true false) Hok) as [H0 Hh0].
+  destruct (begin_txn_inv op (opts CAllowIfSameTop (w_apc (op_world op)) false true true false) Hok) as [H0 Hh0].
   destruct (commit_inv _ ps _ H0 Hh0 HndC Hnext) as [K' [(E1 & E2 & _) Hr]].
   apply rinvP_final in Hr. now rewrite E1, E2 in Hr.
 Qed.
@@ -578,9 +579,10 @@ Proof.
   - rewrite E2. exact Hlast.
 Qed.
 
-Lemma step_uncommit : forall w number names, Inv w -> CInv w -> CInv (fst (run_uncommit w number names)).
+Lemma step_uncommit : forall lower_s w number names,
+  Inv w -> CInv w -> CInv (fst (run_uncommit lower_s w number names)).
 Proof.
-  intros w number names Hinv Hc. unfold run_uncommit.
+  intros lower_s w number names Hinv Hc. unfold run_uncommit.
   match goal with |- CInv (fst (match ?p with Some _ => _ | None => _ end)) => destruct p as [pnames|] end;
     [|exact Hc].
   open_cmd Hinv Hc op Eop Hok. cbv zeta.
@@ -596,15 +598,23 @@ Proof.
     [|destruct P as [r|[commits pns]]; [exact HP|]] end.
   { destruct number as [k|].
     - destruct (walk_down _ _ (N.to_nat k)) as [commits|] eqn:Ew; [|triv Hc Hok].
-      destruct pnames as [|prefix [|? ?]]; [triv Hc Hok| |triv Hc Hok].
-      destruct (forallb _ _); [|triv Hc Hok].
-      destruct (check_patchnames s _) eqn:Ecp; [|triv Hc Hok].
-      apply check_patchnames_spec in Ecp as [Hnd Hdis].
-      pose proof (walk_down_chain _ _ _ _ Ew) as [Hlen _]. rewrite Hlen. auto.
-    - destruct (check_patchnames s pnames) eqn:Ecp; [|triv Hc Hok]. cbn [negb].
-      destruct (walk_down _ _ (length pnames)) as [commits|] eqn:Ew; [|triv Hc Hok].
-      apply check_patchnames_spec in Ecp as [Hnd Hdis].
-      pose proof (walk_down_chain _ _ _ _ Ew) as [Hlen _]. rewrite Hlen. auto. }
+      pose proof (walk_down_chain _ _ _ _ Ew) as [Hlen _].
+      destruct pnames as [|prefix [|? ?]]; [| |triv Hc Hok].
+      + destruct (make_patchnames _ _ _ _) as [gen|] eqn:Eg; [|triv Hc Hok].
+        apply make_patchnames_nodup in Eg as [_ [Hnd Hdis]]. rewrite Hlen. auto.
+      + destruct (forallb _ _); [|triv Hc Hok].
+        destruct (check_patchnames s _) eqn:Ecp; [|triv Hc Hok].
+        apply check_patchnames_spec in Ecp as [Hnd Hdis].
+        rewrite Hlen. auto.
+    - destruct pnames as [|pn0 pnames'].
+      + destruct (walk_down _ _ 1) as [commits|] eqn:Ew; [|triv Hc Hok].
+        pose proof (walk_down_chain _ _ _ _ Ew) as [Hlen _].
+        destruct (make_patchnames _ _ _ _) as [gen|] eqn:Eg; [|triv Hc Hok].
+        apply make_patchnames_nodup in Eg as [_ [Hnd Hdis]]. rewrite Hlen. auto.
+      + destruct (check_patchnames s (pn0 :: pnames')) eqn:Ecp; [|triv Hc Hok]. cbn [negb].
+        destruct (walk_down _ _ (length (pn0 :: pnames'))) as [commits|] eqn:Ew; [|triv Hc Hok].
+        apply check_patchnames_spec in Ecp as [Hnd Hdis].
+        pose proof (walk_down_chain _ _ _ _ Ew) as [Hlen _]. rewrite Hlen. auto. }
   destruct HP as (Hw & Hnd & Hdis).
   destruct (Nat.eqb (length commits) (length pns)) eqn:El; [|triv Hc Hok]. cbn [negb].
   apply Nat.eqb_eq in El.
@@ -729,7 +739,7 @@ Proof.
   destruct (w_stack (op_world op)) as [so|]; [|cbn; apply ns_extends_refl].
   destruct (find_undo_state _ _ _ _) as [st|] eqn:Ef; [|cbn; apply ns_extends_refl].
   apply find_undo_state_in in Ef as [so' Hst].
-  change (t_objs (begin_txn op (opts CDisallow true hard true true true))) with (w_objs (op_world op)) in Hst.
+  change (t_objs (begin_txn op (opts CDisallow (w_apc (op_world op)) hard true true true))) with (w_objs (op_world op)) in Hst.
   pose proof (open_require_objs w op0 Eop) as Eo.
   destruct (open_stack_cases _ _ _ Eop)
     as [(sow & sw & _ & Hsw & _ & _ & Hsw' & _)|[(objs' & sow & [Hp|Hn] & _)|(Hn & _)]];
@@ -1623,7 +1633,7 @@ Proof.
     cbn [rinv rinvP]. auto. }
   destruct x; try exact C2.
   destruct (rebase_first op _ w2 Hok Et1) as (s2 & Hcur & Hg2 & Ha2).
-  set (w3 := mkWorld _ _ _ _ _ _ _).
+  set (w3 := mkWorld _ _ _ _ _ _ _ _).
   assert (C3 : CInv w3) by (apply (cinv_same_objs w2); [reflexivity|exact C2]).
   assert (Hcur3 : cur_state w3 = Some s2) by exact Hcur.
   destruct (open_stack PRequire w3) as [op3|] eqn:Eop3; [|exact C3].
@@ -1787,6 +1797,41 @@ Proof.
     apply stack_collides_none in Esc. exfalso. apply Esc. unfold all_of. apply in_or_app. now left.
 Qed.
 
+(* ---------------------------------------------------------------- pick *)
+
+Lemma pick_body_rinv : forall K pn o na t,
+  tinv K t -> t_head t = None -> ~ In pn (t_applied t) ->
+  (exists p, parents_of (t_objs t) o = [p]) ->
+  rinv K (pick_body pn o na t).
+Proof.
+  intros K pn o na t H Hh Hn Hp. unfold pick_body, rinv.
+  eapply rinvP_bind; [apply new_unapplied_inv; eassumption|].
+  cbv beta. intros t3 H3 Hh3 Ha3. destruct na.
+  - cbn [rinvP]. auto.
+  - eapply rinvP_weaken; [|apply push_patches_inv; [exact H3|exact Hh3|]]; [auto|].
+    rewrite Ha3. apply nodup_app. repeat split.
+    + apply (ti_nodup K t H).
+    + constructor; [intros []|constructor].
+    + intros x Hx [<-|[]]. contradiction.
+Qed.
+
+Lemma step_pick : forall lower_s w src nm na,
+  Inv w -> CInv w -> CInv (fst (run_pick lower_s w src nm na)).
+Proof.
+  intros lower_s w src nm na Hinv Hc.
+  destruct (run_pick_case lower_s w src nm na) as
+    [_|_|op Eo|op given o Eo _ _ _ _|op given o pn0 Eo _ _ _ _ _|op given o pn0 pn c par Eo _ _ _ _ _ Eu _ _];
+    cbn [fst]; try exact Hc;
+    destruct (open_stack_ok _ _ _ Eo Hinv Hc) as (Hok & _ & _); try exact (oo_cinv _ Hok).
+  unfold pick_op, pick_commit.
+  pose proof (opened_ok_with_objs op _ Hok (ns_extends_put_plain (w_objs (op_world op)) [par] (c_tree c) (c_meta c) (c_subj c))) as Hok'.
+  eapply transact_cinv_rinv; [exact Hok'|]. intros t0 H0 Hh0 E0.
+  apply pick_body_rinv; [exact H0|exact Hh0| |].
+  - subst t0. cbn [begin_txn t_applied op_state]. intros Hi.
+    apply (uniquify_notin _ _ _ Eu). unfold all_of. apply in_or_app. now left.
+  - subst t0. cbn [begin_txn t_objs op_world with_objs w_objs]. eexists. apply parents_put_new.
+Qed.
+
 Theorem step_chain : forall lower_s w c,
   in_scope c = true -> Inv w ->
   (forall so s, state_of (w_objs w) so = Some s -> chain_ok (w_objs w) s) ->
@@ -1820,7 +1865,9 @@ Proof.
   - now apply step_edit.
   - now apply step_rebase.
   - now apply step_squash.
+  - now apply step_pick.
   - now apply step_inspect.
+  - now apply step_git.
   - now apply step_git.
   - now apply step_git.
   - now apply step_git.
